@@ -66,7 +66,10 @@ def gen_document(rng, max_depth=5, nfrags=None, nops=None, pdir=0.25):
         header = ""
         vd = ""
         if varnames:
-            vd = "(" + ", ".join("$%s: Boolean!" % v for v in varnames) + ")"
+            # declared defaults never apply here: the rule is given the raw variable values
+            vd = "(" + ", ".join(
+                "$%s: %s" % (v, rng.choice(["Boolean!", "Boolean!", "Boolean = true", "Boolean = false", "Boolean! = true"]))
+                for v in varnames) + ")"
         if nops > 1 or rng.random() < 0.5 or vd:
             header = "%s Op%d%s " % (rng.choice(["query", "query", "mutation"]), i, vd)
         budget = [rng.randint(1, 14)]
